@@ -253,6 +253,14 @@ class Sequences(Part):
         cls = case["cls"]
         A, B = secdom.pools(cls, self.seed)[0]
         asg = [(A, B), (B, A)]
+        # two different secrets that a lossy lookup key (case folding, stripping, numeric value) would identify
+        near = {"text": ("Secr3tWord", "secr3tword"), "hex": ("abcdef1234", "ABCDEF1234"),
+                "type7": (refs.type7_encode("Zqj", 1), refs.type7_encode("Zqj", 1).lower()),
+                "md5": ("$1$abcd$cdXefghijklmnopqrstuvw", "$1$abcd$cdxefghijklmnopqrstuvw"),
+                "juniper9": (refs.j9_encode("hunter2", "Q"), refs.j9_encode("Hunter2", "Q")),
+                "numeric": ("4072", "04072")}[cls]
+        if near[0] != near[1]:
+            asg.append(near)
         depth = bounds(self.tier, self.seed)["sequence_depth"]
         seen = set()
         hists = [h for d in range(1, depth + 1)
@@ -278,16 +286,19 @@ class Sequences(Part):
                 if k not in seen:
                     seen.add(k)
                     res.states += 1
-            res.transitions += 2 * len(h)
+            res.transitions += len(asg) * len(h)
             res.evals += 1
             res.traces += 1
             res.nt((cls, h))
             res.out(tuple(map(str, outs[0])))
-            if outs[0] != outs[1]:
-                res.violation("history-output-depends-on-secret|%s|%s" % (cls, ".".join(map(str, h))),
-                              "history %r: outputs %r vs %r" % (
-                                  [SEQ_ALPHA[i][0] for i in h], outs[0], outs[1]),
-                              {"cls": cls, "hist": list(h)})
+            for k in range(1, len(outs)):
+                if outs[0] != outs[k]:
+                    res.violation("history-output-depends-on-secret|%s|%s%s" % (
+                        cls, ".".join(map(str, h)), "|near-equal-secrets" if k == 2 else ""),
+                        "history %r with secrets %r: outputs %r vs (secrets %r) %r" % (
+                            [SEQ_ALPHA[i][0] for i in h], asg[0], outs[0], asg[k], outs[k]),
+                        {"cls": cls, "hist": list(h)})
+                    break
         if "hist" not in case:
             res.samples.append({"class": cls, "histories": len(hists),
                                 "example": [SEQ_ALPHA[i][0] for i in hists[-1]]})
